@@ -100,7 +100,7 @@ func vSnapshotFilesC11(s *vbe.Store) []string { return s.Keys(backend.SnapshotFi
 //	pre      models of the snapshots that existed before the observed backup
 //	newModel model of the tree of the observed backup (still materialized in src)
 //	pruneFirst  order of the two follow-up commands
-func vStateOracleC11(e *vEnv, s *vbe.Store, pre map[string]vTree, newModel vTree, src string, big, pruneFirst bool) error {
+func vStateOracleC11(e *vEnv, s *vbe.Store, pre map[string]vTree, newModel vTree, src string, pruneFirst bool) error {
 	s.DropLocks() // the interrupted process is dead: `restic unlock` removes its stale lock
 	se := e.OnStore(s)
 	defer se.Release()
@@ -185,7 +185,7 @@ func TestVerifC11BackupCrashPrefixes(t *testing.T) {
 		if err != nil {
 			t.Fatal(err)
 		}
-		c.Class = rapid.SampledFrom([]string{"small", "small", "small", "small", "big"}).Draw(t, "class")
+		c.Class = rapid.SampledFrom([]string{"small", "small", "small", "big"}).Draw(t, "class")
 		big := c.Class == "big"
 		if rapid.IntRange(0, 2).Draw(t, "fullOverride") > 0 {
 			c.FullAt = rapid.IntRange(1, 6).Draw(t, "fullAt")
@@ -261,7 +261,7 @@ func TestVerifC11BackupCrashPrefixes(t *testing.T) {
 			s := e.store.StateAt(k)
 			hasSnap := len(vSnapshotFilesC11(s)) > len(pre)
 			st.Class(fmt.Sprintf("crash_state_has_new_snapshot=%v", hasSnap))
-			if err := vStateOracleC11(e, s, pre, newModel, src, big, (k%2 == 0) != flip); err != nil {
+			if err := vStateOracleC11(e, s, pre, newModel, src, (k%2 == 0) != flip); err != nil {
 				t.Fatalf("crash after %d of %d backup operations (%s): %v\nops:\n%scase %s", k, len(log), vOpAtC11(log, k), err, vOpsStringC11(log), vJSON(c))
 			}
 		}
@@ -322,7 +322,7 @@ func TestVerifC11BackupCrashPrefixes(t *testing.T) {
 			if ferr == nil && len(vSnapshotFilesC11(fs)) != len(pre)+1 {
 				t.Fatalf("%s: success reported but %d snapshot files exist (want %d)\nops:\n%s", desc, len(vSnapshotFilesC11(fs)), len(pre)+1, vOpsStringC11(flog))
 			}
-			if err := vStateOracleC11(e, fs, pre, newModel, src, big, (k%2 == 1) != flip); err != nil {
+			if err := vStateOracleC11(e, fs, pre, newModel, src, (k%2 == 1) != flip); err != nil {
 				t.Fatalf("%s: %v\nops of the faulted run:\n%scase %s", desc, err, vOpsStringC11(flog), vJSON(c))
 			}
 		}
